@@ -231,6 +231,9 @@ func Execute(t *testing.T, p *PropertyDef, seed uint64, stratum string, gen, sch
 		})
 	}()
 	close(done)
+	if run.Net != nil {
+		run.Net.FlushCloses()
+	}
 	res.Digest = w.Digest()
 	res.Steps = w.Step()
 	if res.Probes == nil {
